@@ -53,4 +53,14 @@ def strncmp0 (s lit : Bytes) (n : Nat) : Bool := s.take n == lit.take n
 /-- number of leading bytes of a C string that satisfy `p` -/
 def span (p : UInt8 → Bool) (s : Bytes) : Nat := (s.takeWhile p).length
 
+/-- `*src` for a source pointer given as the rest of the string: its first byte, the terminator 0 behind the last one -/
+def hd (r : Bytes) : UInt8 := r.headD 0
+
+/-- `str.scanf("#%u", &v)`: `some v` when it returns 1 — the literal `#`, then glibc's `%u` as modelled by `scanU` (Model.lean:
+    white space, sign, decimal digits, strtoul saturation, cut to 32 bit) -/
+def scanfHashU (s : Bytes) : Option Nat :=
+  match s with
+  | 35 :: r => scanU r
+  | _ => none
+
 end Nstd.Xml.CSem
